@@ -176,7 +176,7 @@ RECONNECT_CAUSES = ('healthy', 'eof', 'rst', 'wr')
 CLOSE_STEPS = 16
 
 
-def close_during_reconnect(flavour, cause, trigger, k, pending, part, role='client'):
+def close_during_reconnect(flavour, cause, trigger, k, pending, part, role='client', after_loss=False):
     """A client with a provider of three transports; the connection ends by `cause`, reconnect() is asked for (by the
     application itself or from its on_close callback), and the application calls close() exactly k loop iterations later -
     every k from 'same iteration' to 'the new connection is up'. After close() the client is closed: it sends nothing any more on
@@ -247,11 +247,19 @@ def close_during_reconnect(flavour, cause, trigger, k, pending, part, role='clie
             if cause == 'wr':
                 mine_out.write_error = True
             mine_in.deliver_error()
+        elif cause == 'closed':
+            first_close = w.loop.create_task(me.close())  # the application itself closes - and closes again k iterations later
         if trigger == 'free':
             w.logev(('reconnect-requested', 'free'))
             w.loop.create_task(client.reconnect())
         for _ in range(k):
             w.loop.step()
+        if after_loss:
+            # the application goes on using the endpoint after the loss (it has not reconnected): these requests are pending
+            # at the moment of close()
+            st['late_fut'] = watch_future(w, 'c', 'futL', me.request_response(P(b'late-after-loss')))
+            st['late_sub'] = RecSubscriber(w, 'c', 'subL')
+            me.request_stream(P(b's-after-loss')).initial_request_n(1).subscribe(st['late_sub'])
         mark = len(w.log)
         w.logev(('close-called',))
         closer = w.loop.create_task(me.close())
@@ -272,7 +280,7 @@ def close_during_reconnect(flavour, cause, trigger, k, pending, part, role='clie
         part.traces += 1
         part.transitions += k + 2
         ctx = ('close-during-reconnect | %s/%s' % (cause, trigger)) if trigger != 'none' else ('close-during-teardown | %s/%s' % (role, cause))
-        wit = {'kind': 'close-during-reconnect', 'flavour': flavour, 'cause': cause, 'trigger': trigger, 'k': k, 'pending': pending, 'role': role}
+        wit = {'kind': 'close-during-reconnect', 'flavour': flavour, 'cause': cause, 'trigger': trigger, 'k': k, 'pending': pending, 'role': role, 'late': after_loss}
         late_tx = [ev for ev in w.log[quiet:] if ev[0] == 'tx' and ev[1].startswith('c' if role == 'client' else 's')]
         took = [ev[1] for ev in w.log[quiet:] if ev[0] == 'provide']
         part.state((flavour, cause, trigger, pending, closer.done(), len(late_tx), len(took), len(closes)))
@@ -293,6 +301,11 @@ def close_during_reconnect(flavour, cause, trigger, k, pending, part, role='clie
                 part.violate('C11.pending-failed', 'C11.pending-failed | %s | awaitable' % ctx, 'request-response pending when the connection ended was never failed (k=%d)' % k, wit)
             if st['sub'].terminal() is None:
                 part.violate('C11.pending-failed', 'C11.pending-failed | %s | subscriber' % ctx, 'stream pending when the connection ended was never failed (k=%d)' % k, wit)
+        if after_loss:
+            if st['late_fut']['state'] == 'pending':
+                part.violate('C11.pending-failed', 'C11.pending-failed | %s | awaitable-issued-after-loss' % ctx, 'request-response issued after the loss and pending at close() was never failed (k=%d)' % k, wit)
+            if st['late_sub'].terminal() is None:
+                part.violate('C11.pending-failed', 'C11.pending-failed | %s | subscriber-issued-after-loss' % ctx, 'stream issued after the loss and pending at close() was never failed (k=%d)' % k, wit)
         for msg, exc, txt in w.loop.read_exc_log():
             part.violate('C11.no-unhandled-exception', 'C11.no-unhandled-exception | %s | %s' % (ctx, exc), '%s: %s' % (msg, txt), wit)
     finally:
@@ -407,10 +420,14 @@ def run_unit(unit, part):
                         close_during_reconnect(unit['flavour'], cause, trigger, k, pending, part)
         # no reconnect at all: close() called k loop iterations after the loss, i.e. in the middle of the teardown, in both roles
         for role in ('client', 'server'):
-            for cause in RECONNECT_CAUSES:
+            for cause in RECONNECT_CAUSES + ('closed',):
                 for pending in (False, True):
                     for k in range(CLOSE_STEPS):
                         close_during_reconnect(unit['flavour'], cause, 'none', k, pending, part, role)
+            # requests issued on the dead endpoint after the loss (no reconnect) are pending when close() is called
+            for cause in ('eof', 'rst', 'wr'):
+                for k in (0, 1, 2, 4, 8, CLOSE_STEPS, 40):
+                    close_during_reconnect(unit['flavour'], cause, 'none', k, False, part, role, after_loss=True)
         part.sample({'kind': 'close-during-reconnect', 'link': unit['flavour'], 'causes': list(RECONNECT_CAUSES), 'close_after_loop_iterations': [0, CLOSE_STEPS - 1]}, limit=1)
         return
     dev_explore(scenario_of(unit), unit['bound'], part, shard=tuple(unit['shard']), det_every=200)
@@ -427,7 +444,7 @@ def replay(rec):
     if w.get('kind') == 'close-during-reconnect':
         from mc.runner import Partial
         p = Partial()
-        close_during_reconnect(w['flavour'], w['cause'], w['trigger'], w['k'], w['pending'], p, w.get('role', 'client'))
+        close_during_reconnect(w['flavour'], w['cause'], w['trigger'], w['k'], w['pending'], p, w.get('role', 'client'), w.get('late', False))
         for v in p.violations.values():
             print(v.rule, '|', v.detail)
         return bool(p.violations)
